@@ -312,10 +312,10 @@ _fam("strcb", new_tree=lambda: Tree("T"), load_cls=Tree, typed=False, mk=mk_str,
      key_custom={"str": "S", "data_id": "D"}, value_custom=lambda L: {"custom": {"str": _vals(L)}}, style="load callback")
 _fam("typed", new_tree=lambda: TypedTree("T"), load_cls=TypedTree, typed=True, mk=mk_str, save_mapper=None, load_mapper=None,
      key_custom={"str": "S", "kind": "K", "data_id": "D"},
-     value_custom=lambda L: {"custom": {"kind": ["zz", "k2", "k1"], "str": _vals(L)}, "custom_nokind": {"str": _vals(L)}}, style="no mapper")
+     value_custom=lambda L: {"custom": {"kind": ["zz", "k2", "", "k1"], "str": _vals(L)}, "custom_nokind": {"str": _vals(L)}}, style="no mapper")
 _fam("typedcb", new_tree=lambda: TypedTree("T"), load_cls=TypedTree, typed=True, mk=mk_str, save_mapper=None, load_mapper=str_de,
      key_custom={"str": "S", "kind": "K", "data_id": "D"},
-     value_custom=lambda L: {"custom": {"kind": ["zz", "k2", "k1"], "str": _vals(L)}, "custom_nokind": {"str": _vals(L)}}, style="load callback")
+     value_custom=lambda L: {"custom": {"kind": ["zz", "k2", "", "k1"], "str": _vals(L)}, "custom_nokind": {"str": _vals(L)}}, style="load callback")
 _fam("rec", new_tree=lambda: Tree("T"), load_cls=Tree, typed=False, mk=mk_rec, save_mapper=rec_ser, load_mapper=rec_de,
      key_custom={"name": "n", "type": "t", "data_id": "D"},
      value_custom=lambda L: {"custom": {"type": ["other", "rec"], "name": _vals(L), "size": [0] + sorted({_size_of(x) for x in L})}}, style="callback mappers")
@@ -539,7 +539,7 @@ COMPRESSION = {
     "bzip2": zipfile.ZIP_BZIP2, "lzma": zipfile.ZIP_LZMA,
 }
 TARGETS = ("path", "pathlib", "file", "sio")
-METAS = ("none", "meta")
+METAS = ("none", "meta", "filemeta")  # filemeta: user metadata that is the file_meta of an earlier load() (holds stale reserved entries)
 # (user keys may start with '$' as well -- '$schema', '$comment' --: only the four names the format defines are reserved)
 USER_META = {"foo": "bar", "count": 3, "nested": {"k": [1, 2, None], "ü": "€"}, "flag": True, "$schema": "urn:x", "$": 0}
 RESERVED_META = ("$generator", "$format_version", "$key_map", "$value_map")
@@ -579,7 +579,7 @@ def combos(fam: Family, mode: str):
         else:  # full matrix over the options the property names; meta alternates
             c = []
             for n, (k, v, cp, t) in enumerate(itertools.product(kms, vms, comps, TARGETS)):
-                c.append((k, v, cp, t, METAS[n % 2]))
+                c.append((k, v, cp, t, METAS[n % 3]))
         _COMBO_CACHE[key] = c
     return _COMBO_CACHE[key]
 
@@ -643,7 +643,9 @@ def save_load(fam: Family, tree, labels, opts, tmpdir):
     km, vm, comp, target, metaname = opts
     key_map = copy.deepcopy(fam.key_maps()[km])
     value_map = copy.deepcopy(fam.value_maps(labels)[vm])
-    meta = copy.deepcopy(USER_META) if metaname == "meta" else None
+    meta = copy.deepcopy(USER_META) if metaname in ("meta", "filemeta") else None
+    if metaname == "filemeta":
+        meta = {"$generator": "nutree/0.0.1", "$format_version": "0.1", "$key_map": {"data_id": "i", "str": "s", "stale": "x"}, "$value_map": {"kind": ["stale1", "stale2"], "stale": ["y"]}, **meta}
     skw = dict(key_map=key_map, value_map=value_map, compression=COMPRESSION[comp], meta=meta)
     if fam.save_mapper is not None:
         skw["mapper"] = fam.save_mapper
@@ -702,7 +704,7 @@ def save_load(fam: Family, tree, labels, opts, tmpdir):
 
 def check_meta(file_meta: dict, metaname: str) -> list:
     out = []
-    want = USER_META if metaname == "meta" else {}
+    want = USER_META if metaname in ("meta", "filemeta") else {}
     g = file_meta.get("$generator")
     if not (isinstance(g, str) and g.startswith("nutree/")):
         out.append((CL_META, f"file_meta['$generator'] = {g!r}, expected 'nutree/<version>'"))
@@ -769,6 +771,8 @@ def case_list(tier: str):
     out += [("strcb", s) for s in idspecs]
     out += [("strcb", s) for s in emptylab_specs(N - 1)]
     out += [("typed", s) for s in gen.typed_specs(N)]
+    # the empty string is a kind like any other (falsy, but a value)
+    out += [(f, s) for f in ("typed", "typedcb") for s in gen.typed_specs(N - 1, min_n=1, kinds=("", "k1"))]
     tid = list(idclone_specs(N - 1, typed=True))
     # typed trees in which a node with an explicit id coexists with equal data under another id
     tid += [typed_of(s) for s in gen.explicit_id_specs(N - 1)] + [typed_of(s) for s in gen.eqpair_specs(N - 1)]
